@@ -40,7 +40,10 @@ impl Out {
         writeln!(self.cases, "{}", c.encode()).unwrap();
         writeln!(self.imp, "{}", c.run()).unwrap();
         writeln!(self.tags, "{}", c.tag.replace('\n', " ")).unwrap();
-        writeln!(self.expect, "-").unwrap();
+        match script::LAST_ORACLE.with(|o| o.borrow_mut().take()) {
+            None => writeln!(self.expect, "-").unwrap(),
+            Some(m) => writeln!(self.expect, "!{}", m).unwrap(),
+        }
         self.n += 1;
     }
     /// a `fmt` case; the harness's own metamorphic oracle verdict goes to expect.txt as `!msg`
@@ -232,6 +235,11 @@ fn gen_profile(profile: &str, seed: u64, n: usize, thorough: bool, out: &mut Out
         "c12" => {
             for _ in 0..n {
                 out.script(&gen::gen_c12(&mut r));
+            }
+        }
+        "c13" => {
+            for _ in 0..n {
+                out.script(&gen::gen_c13(&mut r));
             }
         }
         "c15" => {
